@@ -17,7 +17,7 @@ EXPLANATION = (
     "setDefault(default), on the entry obtained from that topic with that default.  C09.O4 the tunable->entry map is a fresh object "
     "per setup_tunables call stored on the instance; nothing is written to the descriptor or the class during binding or access.  "
     "C09.O5 instance reads return instance-map[descriptor].get(), writes call .set(value) on the same entry, class access returns "
-    "the descriptor."
+    "the descriptor.  A tunable whose annotation differs from the type of its default (kp: float = tunable(0)) is published with the topic of the resolved hint; the raw __annotations__ hold source text, as under postponed evaluation of annotations."
 )
 RULE = "one obligation per (owner kind, tunable attribute, rule); keys and values symbolic"
 EXHAUSTIVE = True
